@@ -7,7 +7,7 @@ def main():
     for pid, spec in list(props.SPECS.items()) + [("C10", props.SPEC_C10_MACHINE)]:
         rng = random.Random(int(hashlib.sha256((spec.pid + "quick").encode()).hexdigest()[:8], 16))
         cs = spec.cfgs("quick", rng)
-        for c in cs + [dict(c, tapi=1) for k, c in enumerate(cs) if c["n"] <= 5 and k % 2 == 0]:
+        for c in cs + [dict(c, tapi=1) for k, c in enumerate(cs) if c["n"] <= 5 and (k % 2 == 0 or (c["plans"] and c["payload"]))]:
             for v in spec.variants: jobs.append(("m", c, v, tuple(spec.extra_flags), spec.cxx, spec.opt))
     for v in ("include", "development"): jobs.append(("u", None, v, (), "g++", "-O0"))
     src = os.path.join(common.HARNESS, "dispatch_harness.cpp")
